@@ -100,26 +100,27 @@ ASSUME D0("gcc") <= SafeDepth(512) /\ D0("san") <= SafeDepth(1600)
 -----------------------------------------------------------------------------
 (* Named deviations of the unchanged tree (each with its guard).             *)
 
-\* MsgPack: some array/map header (dc / dd / de / df) declares more elements than there are bytes behind it.
-\* (Scan over the bytes: an over-approximation of "the loader reaches such a header"; the deviation additionally demands
-\* the allocation symptom.)
+\* MsgPack: some header with a 16/32-bit count or length field (array / map: dc dd de df; str: da db; bin: c5 c6; ext: c8 c9)
+\* declares more elements / payload bytes than the whole document has bytes - what the reference decoder of
+\* spec/MsgPackFormat.tla reports as err = "count".  (Scan over all byte positions: an over-approximation of "the loader
+\* reaches such a header"; the deviation additionally demands the allocation symptom.)
 Be(b, p, w) == IF w = 2 THEN (b[p] * 256) + b[p + 1]
                ELSE IF b[p] >= 128 THEN 2147483647
                ELSE (((((b[p] * 256) + b[p + 1]) * 256) + b[p + 2]) * 256) + b[p + 3]
-CountHeaderExceeds(b) ==
+DeclaredExceeds(b) ==
   \E p \in 1..Len(b) :
-     \/ b[p] \in {220, 222} /\ p + 2 <= Len(b) /\ Be(b, p + 1, 2) > Len(b) - (p + 2)
-     \/ b[p] \in {221, 223} /\ p + 4 <= Len(b) /\ Be(b, p + 1, 4) > Len(b) - (p + 4)
+     \/ b[p] \in {220, 222, 218, 197, 200} /\ p + 2 <= Len(b) /\ Be(b, p + 1, 2) > Len(b)
+     \/ b[p] \in {221, 223, 219, 198, 201} /\ p + 4 <= Len(b) /\ Be(b, p + 1, 4) > Len(b)
 
 AllocSymptom(n, r) ==
   \/ r.o = "StdException" /\ r.x = "std:bad_alloc"
   \/ r.o \in Allowed /\ ~WithinBounds(n, r.acc, r.pk, r.tb)
   \/ r.o = "Sanitizer" /\ r.kind = "allocation-size-too-big"
 
-\* containers are pre-sized from the declared element count (known finding)
+\* containers and string buffers are pre-sized from the declared element count / byte length (known finding)
 Dev_PresizeFromDeclaredCount(fmt, doc, n, r) ==
   /\ fmt = "msgpack"
-  /\ CountHeaderExceeds(doc)
+  /\ DeclaredExceeds(doc)
   /\ AllocSymptom(n, r)
 
 \* unbounded recursion over nested containers (MsgPack SkipValueImpl, recursive loading of nested user types on every
@@ -139,11 +140,18 @@ Dev_SqueezeMemcpyOverlap(r) ==
   /\ r.o = "Sanitizer" /\ r.kind = "memcpy-param-overlap"
   /\ r.stream
 
+\* ISO-8601 duration parsing: the precision check of SafeDurationCast multiplies back in the signed target type, and the
+\* most negative 64-bit value is produced by negating its magnitude (signed overflow: undefined behaviour; wraps on x86)
+Dev_ChronoSignedOverflow(fmt, r) ==
+  /\ fmt \in {"dt", "du"}
+  /\ r.o = "Sanitizer" /\ r.kind = "ubsan:signed-overflow" /\ r.file = "convert_chrono.h"
+
 \* classification of a rejected run: the name of the one deviation that explains it, or ""
 Classify(fmt, rle, doc, n, build, r) ==
   IF Dev_DeepNestingStackOverflow(fmt, rle, build, r) THEN "Dev_DeepNestingStackOverflow"
   ELSE IF Dev_MsgPackUnalignedLoad(fmt, r) THEN "Dev_MsgPackUnalignedLoad"
   ELSE IF Dev_SqueezeMemcpyOverlap(r) THEN "Dev_SqueezeMemcpyOverlap"
+  ELSE IF Dev_ChronoSignedOverflow(fmt, r) THEN "Dev_ChronoSignedOverflow"
   ELSE IF Dev_PresizeFromDeclaredCount(fmt, doc, n, r) THEN "Dev_PresizeFromDeclaredCount"
   ELSE ""
 =============================================================================
